@@ -273,37 +273,30 @@ def native_replay(crate, modpath, harness, witness, timeout=60):
     return {"reproduced": False, "detail": "native replay gave no verdict (rc=%s)" % rc, "output": text[-2000:]}
 
 
-def native_search(crate, modpath, harness, nbytes, seed, tries=300, first=None):
-    """witness search on the real code: Kani's witness first, then seeded random/structured byte strings"""
-    rnd = random.Random(seed)
-    cands = []
+def native_search(crate, modpath, harness, nbytes, seed, tries=3000, first=None, timeout=300):
+    """witness search on the real code: the verifier's witness first, then `tries` seeded pseudo-random byte strings generated and
+    run inside ONE native process (hooks/common.rs verif_replay_main, search mode)"""
     if first:
-        cands.append(list(first))
-    for i in range(tries):
-        mode = i % 4
-        if mode == 0:
-            w = [rnd.randrange(256) for _ in range(nbytes)]
-        elif mode == 1:
-            w = [rnd.choice([0, 255, 1, 128, 127, 16, 240]) for _ in range(nbytes)]
-        elif mode == 2:
-            w = [rnd.randrange(256) if rnd.random() < 0.5 else 0 for _ in range(nbytes)]
-        else:
-            base = rnd.randrange(256)
-            w = [(base + rnd.randrange(-40, 41)) % 256 for _ in range(nbytes)]
-        cands.append(w)
-    last = None
-    for w in cands:
-        r = native_replay(crate, modpath, harness, w)
-        last = r
+        r = native_replay(crate, modpath, harness, first)
         if r["reproduced"]:
-            r["witness"] = w
+            r["witness"] = list(first)
             return r
-        if "build failed" in r["detail"] or "no verdict" in r["detail"]:
-            break
-    if last is None:
-        last = {"reproduced": False, "detail": "no candidate", "output": ""}
-    last["witness"] = first
-    return last
+        if "build failed" in r["detail"]:
+            r["witness"] = first
+            return r
+    exe = native_test_binary(crate)
+    if not exe:
+        return {"reproduced": False, "detail": "native replay build failed", "output": "", "witness": first}
+    env = dict(ENV)
+    env.update({"VERIF_HARNESS": harness, "VERIF_SEARCH": str(tries), "VERIF_SEED": str(seed), "VERIF_NBYTES": str(max(1, nbytes)), "RUST_BACKTRACE": "0"})
+    rc, text, secs = sh([exe, modpath + "::verif_replay", "--exact", "--nocapture", "--test-threads", "1"], timeout=timeout, env=env)
+    m = re.search(r"REPLAY-FOUND harness=\S+ try=(\d+) detail=\[(.*?)\] witness=([0-9,]*)", text)
+    if m:
+        w = [int(x) for x in m.group(3).split(",") if x]
+        return {"reproduced": True, "detail": "native witness search (try %s of %d, seed %d): %s" % (m.group(1), tries, seed, m.group(2)), "output": text[-1500:], "witness": w}
+    if "REPLAY-NOTFOUND" in text:
+        return {"reproduced": False, "detail": "native witness search: none of %d pseudo-random inputs (seed %d) violates the postcondition on the real code" % (tries, seed), "output": "", "witness": first}
+    return {"reproduced": False, "detail": "native witness search gave no verdict (rc=%s): %s" % (rc, text[-300:]), "output": text[-1500:], "witness": first}
 
 
 # ----------------------------------------------------------------------------------------------------------
